@@ -486,7 +486,7 @@ func c13L3(r *Run, rep *core.Report) {
 			})
 		}
 	}
-	rep.MinCount("C13.L3", "resize specialisations", n, 6)
+	rep.MinCount("C13.L3", "resize specialisations", n, 4)
 }
 
 // ---- L4: waiter protocol ----
